@@ -149,8 +149,10 @@ func runSleep(p SleepPlan) (vk.Outcome, error) {
 		}
 		doneAtCall := ctx.Err() != nil
 		start := time.Now()
-		if p.Detached {
+		if p.Detached && p.D%2 == 0 {
 			ctx = sk.Detach(ctx)
+		} else if p.Detached {
+			ctx = sk.DetachValue(ctx)
 		}
 		err := xtime.SleepContext(ctx, time.Duration(p.D))
 		elapsed := int64(time.Since(start))
